@@ -202,9 +202,17 @@ int main(int argc, char** argv) {
             struct timespec t0, t1; unsigned long wid = strtoul(tok[2], 0, 10);
             clockid_t cid = wid == 1 ? CLOCK_MONOTONIC : wid == 2 ? CLOCK_PROCESS_CPUTIME_ID : wid == 3 ? CLOCK_THREAD_CPUTIME_ID : CLOCK_REALTIME;
             clock_gettime(cid, &t0);
-            err = CALL(abi, clock_time_get, (NULL, (U32)strtoul(tok[2], 0, 10), 1, R1));
+            err = CALL(abi, clock_time_get, (NULL, (U32)strtoul(tok[2], 0, 10), nt > 3 ? strtoull(tok[3], 0, 10) : 1, R1));
             clock_gettime(cid, &t1);
             printf("{\"i\":%d,\"bracket\":[%ld,%ld,%ld,%ld]}\n", callno, (long)t0.tv_sec, (long)t0.tv_nsec, (long)t1.tv_sec, (long)t1.tv_nsec);
+        } else if (!strcmp(cmd, "clockseq")) {
+            /* clockseq ABI id precision...: the calls follow each other directly (no snapshotting in between), results at BIG + 8k */
+            int n = nt - 3; U32 e = 0, bad = 0; U32 wid = (U32)strtoul(tok[2], 0, 10);
+            for (k = 0; k < n; k++) { e = CALL(abi, clock_time_get, (NULL, wid, strtoull(tok[3 + k], 0, 10), BIG + 8 * (U32)k)); if (e) bad = e; }
+            printf("{\"i\":%d,\"call\":\"clockseq\",\"errno\":%u,\"ts\":[", callno, bad);
+            for (k = 0; k < n; k++) printf("%s%llu", k ? "," : "", (unsigned long long)i64_load(mem, BIG + 8 * (U32)k));
+            printf("]}\n"); fflush(stdout);
+            continue;
         } else if (!strcmp(cmd, "burn")) {
             /* a helper thread uses the given milliseconds of CPU: afterwards the process CPU clock is far ahead of this thread's */
             pthread_t th; long ms = strtol(tok[2], 0, 10);
